@@ -99,7 +99,7 @@ ENTRY int verif_pbf_object_roundtrip(int kind, const long* f, int low, unsigned 
 #include <osmium/io/detail/opl_parser_functions.hpp>
 
 // kind 0 node {id, version, timestamp, changeset, uid, visible, x, y}; 1 way {id, version, ref0, ref1}; 2 relation {id, version, mref0, mref1};
-// 3 changeset {id, created, closed, uid, num_changes, x0, y0, x1}.  md: metadata bits (version 1, timestamp 2, changeset 4, uid 8, user 16).
+// 3 changeset {id, created, closed, uid, num_changes, x0, y0, x1}; 4 way with locations on ways {id, version, ref0, ref1, ref2, mask of references that have a location}.  md: metadata bits (version 1, timestamp 2, changeset 4, uid 8, user 16).
 // out1 = dump of the object as built, out2 = dump of what the parser made of the written line.  rc 0 ok, 1 opl_error, 2 other, 9 overflow
 ENTRY int verif_opl_roundtrip(int kind, const long* f, unsigned md, unsigned char* out1, unsigned* len1, unsigned char* out2, unsigned* len2, unsigned cap, char* text, unsigned textcap) {
     try {
@@ -115,6 +115,12 @@ ENTRY int verif_opl_roundtrip(int kind, const long* f, unsigned md, unsigned cha
             case 1: {
                 { builder::WayBuilder b{in}; b.set_id(f[0]).set_version(static_cast<object_version_type>(f[1])).set_timestamp(Timestamp{uint32_t(1000000000)}).set_changeset(7).set_uid(8); b.set_user("u");
                   { builder::WayNodeListBuilder wn{b}; wn.add_node_ref(f[2]); wn.add_node_ref(f[3]); } }
+                break; }
+            case 4: {        // way written with locations on ways: which of the three references have a location is given by the bits of f[5]
+                { builder::WayBuilder b{in}; b.set_id(f[0]).set_version(static_cast<object_version_type>(f[1])).set_timestamp(Timestamp{uint32_t(1000000000)}).set_changeset(7).set_uid(8); b.set_user("u");
+                  { builder::WayNodeListBuilder wn{b};
+                    wn.add_node_ref(NodeRef{f[2], (f[5] & 1) ? Location{15000000, -25000000} : Location{}}); wn.add_node_ref(NodeRef{f[3], (f[5] & 2) ? Location{1, 2} : Location{}});
+                    wn.add_node_ref(NodeRef{f[4], (f[5] & 4) ? Location{-1800000000, 900000000} : Location{}}); } }
                 break; }
             case 2: {
                 { builder::RelationBuilder b{in}; b.set_id(f[0]).set_version(static_cast<object_version_type>(f[1])).set_timestamp(Timestamp{uint32_t(1000000000)}).set_changeset(7).set_uid(8); b.set_user("u");
@@ -133,6 +139,7 @@ ENTRY int verif_opl_roundtrip(int kind, const long* f, unsigned md, unsigned cha
         options.add_metadata = osmium::metadata_options{};
         options.add_metadata.set_version(md & 1U); options.add_metadata.set_timestamp(md & 2U); options.add_metadata.set_changeset(md & 4U);
         options.add_metadata.set_uid(md & 8U); options.add_metadata.set_user(md & 16U);
+        options.locations_on_ways = (kind == 4);
         std::string line = OPLOutputBlock{std::move(in), options}();
         if (line.empty() || line.back() != '\n') return 4;
         line.pop_back();
